@@ -334,7 +334,11 @@ class DevBusSim:
     def _faulted(self, ans):
         self.nans += 1
         if self.fault[1] != "none" and self.nans == self.fault[0]:
-            return ("none", 0) if self.fault[1] == "silent" else ("err", 255)
+            if self.fault[1] == "silent":
+                return ("none", 0)
+            if self.fault[1] == "errsame" and ans[0] == "val":
+                return ("err", ans[1])          # garbled, yet the data bits are those of the right answer
+            return ("err", 255)
         return ans
 
     @staticmethod
